@@ -4,7 +4,7 @@ from trie.smt import SparseMerkleTree, calc_root
 from ..core import Blob, HarnessError, Violation, deep, fresh, hx, unhx
 from ..models.smtref import RefSMT
 from ..hworld import in_handler
-from ..simdb import SimDB, make_store
+from ..simdb import SimDB, make_store, STORE_FLAVOURS
 
 ID = "C14"
 LEVEL = "exploration"
@@ -432,7 +432,7 @@ def execute(case, st):
 def make_cfg(rng):
     ks = rng.choice([1, 1, 1, 2, 2, 2, 3, 3, 4, 8, 20, 32])
     default = rng.choice([b"", b"", b"\x00", b"dflt", bytes(32), bytes(range(32))])
-    return {"ks": ks, "default": hx(default), "sub_default": int(rng.random() < 0.2), "store": rng.choice(["min", "min", "dict"])}
+    return {"ks": ks, "default": hx(default), "sub_default": int(rng.random() < 0.2), "store": rng.choice(STORE_FLAVOURS)}
 
 
 def make_keys(rng, ks, n=None):
